@@ -362,6 +362,7 @@ VARIANTS["C09"] = [
     M("trie-keys-differ", "xgi/utils/trie.py", "    def insert(self, word):\n        node = self.root\n        for char in sorted(word):", "    def insert(self, word):\n        node = self.root\n        for char in sorted(word, key=str):", "K-CANON"),
     R("local-clustering-explicit-dict", CL, "    members = H.edges.members(dtype=dict)\n", "    members = {e: H.edges.members(e) for e in H.edges}\n"),
     R("trie-sort-hoisted", "xgi/utils/trie.py", "    def search(self, word):\n        node = self.root\n        for char in sorted(word):", "    def search(self, word):\n        node = self.root\n        word = sorted(word)\n        for char in word:"),
+    M("incidence-rows-numbered-over-a-set-C09", "xgi/linalg/hypergraph_matrix.py", "    node_dict = dict(zip(node_ids, range(num_nodes)))", "    node_dict = dict(zip(set(node_ids), range(num_nodes)))", "M-MAP", "incidence_matrix"),
 ]
 VARIANTS["C09"] = [v for v in VARIANTS["C09"] if v.get("rule") is not None or v["kind"] == "refactor"]
 
@@ -374,6 +375,7 @@ VARIANTS["C12"] = [
     M("adjacency-empty-branch-unassigned", HM, "        if not rowdict:\n            A = csr_array((0, 0)) if sparse else np.empty((0, 0))\n        if not coldict:\n            shape = (H.num_nodes, H.num_nodes)", "        if rowdict:\n            A = csr_array((0, 0)) if sparse else np.empty((0, 0))\n        if coldict:\n            shape = (H.num_nodes, H.num_nodes)", "M-EMPTY", "adjacency_matrix"),
     M("multiorder-normaliser-from-laplacian", LM, "    Ks = [degree_matrix(H, order=d) for d in orders]", "    Ks = [L.diagonal() / d for L, d in zip(Ls, orders)]", "M-NORM", "multiorder_laplacian"),
     R("incidence-maps-comprehension", HM, "    node_dict = dict(zip(node_ids, range(num_nodes)))", "    node_dict = {n: i for i, n in enumerate(node_ids)}"),
+    M("incidence-rows-numbered-over-a-set-C12", "xgi/linalg/hypergraph_matrix.py", "    node_dict = dict(zip(node_ids, range(num_nodes)))", "    node_dict = dict(zip(set(node_ids), range(num_nodes)))", "M-MAP", "incidence_matrix"),
 ]
 
 # --------------------------------------------------------------------------- C16
@@ -425,6 +427,9 @@ VARIANTS["C10"] = [
     M("bipartite-undirected-positional", BG, "        elif v in edges:\n            H.add_node_to_edge(v, u)\n        else:\n            H.add_node_to_edge(u, v)", "        else:\n            H.add_node_to_edge(v, u)", "T-ROLE", "from_bipartite_graph"),
     R("hif-writer-dict-built-in-order", HIF, "    data[\"metadata\"] = {}\n    data[\"metadata\"].update(H._net_attr)", "    data[\"metadata\"] = dict(H._net_attr)\n    data[\"metadata\"].update({})"),
     R("hif-attrs-separate-branches", HIF, "    for n in isolates.union(nodes_with_attrs):\n        attr = {\"attrs\": H.nodes[n]} if H.nodes[n] else {}\n        data[\"nodes\"].append(IDDict({\"node\": n}) + attr)", "    for n in isolates.union(nodes_with_attrs):\n        if H.nodes[n]:\n            data[\"nodes\"].append(IDDict({\"node\": n}) + {\"attrs\": H.nodes[n]})\n        else:\n            data[\"nodes\"].append(IDDict({\"node\": n}))"),
+    M("from_bipartite-direction-swapped", "xgi/convert/bipartite_graph.py", "                H.add_node_to_edge(v, u, direction=\"in\")", "                H.add_node_to_edge(v, u, direction=\"out\")", "T-ROLE", "from_bipartite_graph"),
+    M("to_bipartite-head-written-as-tail", "xgi/convert/bipartite_graph.py", "            for v in H.edges.head(e):\n                G.add_edge(edge_dict[e], node_dict[v])", "            for v in H.edges.head(e):\n                G.add_edge(node_dict[v], edge_dict[e])", "T-ROLE", "to_bipartite_graph"),
+    R("from_bipartite-per-edge-pred-succ (property-preserving, edge order aside)", "xgi/convert/bipartite_graph.py", "    for u, v in G.edges:\n        if directed:\n            if v in edges:\n                H.add_node_to_edge(v, u, direction=\"in\")\n            else:\n                H.add_node_to_edge(u, v, direction=\"out\")\n        elif v in edges:\n            H.add_node_to_edge(v, u)\n        else:\n            H.add_node_to_edge(u, v)\n", "    for e in edges:\n        if directed:\n            for n in G.predecessors(e):\n                H.add_node_to_edge(e, n, direction=\"in\")\n            for n in G.successors(e):\n                H.add_node_to_edge(e, n, direction=\"out\")\n        else:\n            for n in G.neighbors(e):\n                H.add_node_to_edge(e, n)\n"),
 ]
 
 # --------------------------------------------------------------------------- C11
@@ -446,6 +451,11 @@ VARIANTS["C11"] = [
     M("write_bipartite-default-delimiter", RB, "        for line in generate_bipartite_edgelist(H, delimiter):", "        for line in generate_bipartite_edgelist(H):", "F-FWD", "write_bipartite_edgelist"),
     M("incidence-no-ndmin", RI, "            path, comments=comments, delimiter=delimiter, encoding=encoding, ndmin=2\n", "            path, comments=comments, delimiter=delimiter, encoding=encoding\n", "F-2D", "read_incidence_matrix"),
     M("hif-incidences-on-demand", HIF, "    elif data[\"network-type\"] in {\"undirected\", \"asc\"}:\n        data[\"incidences\"] = [\n            IDDict({\"edge\": e, \"node\": n}) for n, e in to_bipartite_edgelist(H)\n        ]", "    elif data[\"network-type\"] in {\"undirected\", \"asc\"}:\n        for n, e in to_bipartite_edgelist(H):\n            data[\"incidences\"].append(IDDict({\"edge\": e, \"node\": n}))", "T-DEF", "to_hif_dict"),
+    M("bipartite-edge-cast-with-nodetype", RB, "                edge = edgetype(s[edge_index])", "                edge = nodetype(s[edge_index])", "F-CAST", "parse_bipartite_edgelist"),
+    M("bipartite-node-from-edge-column", RB, "                node = nodetype(s[node_index])", "                node = nodetype(s[edge_index])", "F-CAST", "parse_bipartite_edgelist"),
+    M("bipartite-raw-edge-always", RB, "        else:\n            edge = s[edge_index]\n\n        H.add_node_to_edge(edge, node)", "        else:\n            edge = s[edge_index]\n        edge = s[edge_index]\n\n        H.add_node_to_edge(edge, node)", "F-CAST", "parse_bipartite_edgelist"),
+    M("edgelist-no-cast", RE, "                edge = [nodetype(node) for node in edge]", "                edge = [node for node in edge]", "F-CAST", "parse_edgelist"),
+    R("edgelist-cast-with-map", RE, "                edge = [nodetype(node) for node in edge]", "                edge = list(map(nodetype, edge))"),
     R("incidence-atleast-2d", RI, "        np.loadtxt(\n            path, comments=comments, delimiter=delimiter, encoding=encoding, ndmin=2\n        ),", "        np.atleast_2d(\n            np.loadtxt(path, comments=comments, delimiter=delimiter, encoding=encoding)\n        ),"),
     R("write_hif-dumps-inline", RH, "    data = to_hif_dict(H)\n\n    datastring = json.dumps(data, indent=2)\n", "    data = to_hif_dict(H)\n    datastring = json.dumps(data, indent=2, sort_keys=False)\n"),
 ]
